@@ -596,3 +596,95 @@ Proof.
   split; [exact V|]. split; [exact R|]. split; [exact F|]. split; [exact St|].
   intros tr' s' H. destruct (stuck_left_forever p tr' s s' St H) as (_ & A & B). auto.
 Qed.
+
+(* ---- join: macro steps, early return ---- *)
+
+Lemma nget_nset : forall s d x, nget (nset s d x) d = x.
+Proof. intros s [] x; reflexivity. Qed.
+
+Lemma nset_nset : forall s d x y, nset (nset s d x) d y = nset s d y.
+Proof. intros s [] x y; reflexivity. Qed.
+
+Lemma nset_nget : forall s d, nset s d (nget s d) = s.
+Proof. intros [l r m a] []; reflexivity. Qed.
+
+Lemma nsend_many_run : forall p d k s s', nsend_many p s d k = Some s' -> nrun p s (repeat (NSend d) k) = Some s'.
+Proof.
+  induction k as [|k IH]; intros s s' H; unfold nsend_many in H;
+    destruct (p_pc (nget s d)) eqn:P; try discriminate;
+    destruct ((p_sent (nget s d) + _ <=? np_n p d) && (length (p_ch (nget s d)) + _ <=? np_cap p) && negb (p_closed (nget s d))) eqn:G;
+    try discriminate; inversion H; subst; clear H;
+    apply andb_true_iff in G; destruct G as [G C]; apply andb_true_iff in G; destruct G as [G1 G2];
+    apply Nat.leb_le in G1; apply Nat.leb_le in G2; apply negb_true_iff in C.
+  - simpl. f_equal. rewrite Nat.add_0_r, app_nil_r. rewrite <- P, <- C.
+    rewrite <- (nset_nget s d) at 1. f_equal. destruct (nget s d); reflexivity.
+  - assert (E1 : p_sent (nget s d) <? np_n p d = true) by (apply Nat.ltb_lt; lia).
+    assert (E2 : length (p_ch (nget s d)) <? np_cap p = true) by (apply Nat.ltb_lt; lia).
+    assert (St : nstep p s (NSend d) = Some (nset s d (mkprod (S (p_sent (nget s d))) PSend (p_ch (nget s d) ++ [MData]) false))).
+    { unfold nstep. rewrite P, E1, E2. reflexivity. }
+    change (repeat (NSend d) (S k)) with (NSend d :: repeat (NSend d) k). cbn [nrun]. rewrite St.
+    apply IH. unfold nsend_many. rewrite nget_nset. cbn [p_pc p_sent p_ch p_closed].
+    rewrite app_length. cbn [length].
+    assert (F1 : S (p_sent (nget s d)) + k <=? np_n p d = true) by (apply Nat.leb_le; lia).
+    assert (F2 : length (p_ch (nget s d)) + 1 + k <=? np_cap p = true) by (apply Nat.leb_le; lia).
+    rewrite F1, F2. cbn [andb negb]. rewrite nset_nset. f_equal. f_equal.
+    rewrite <- app_assoc. cbn [app]. replace (S (p_sent (nget s d)) + k) with (p_sent (nget s d) + S k) by lia. reflexivity.
+Qed.
+
+Lemma nrun_app : forall p a b s s1 s2, nrun p s a = Some s1 -> nrun p s1 b = Some s2 -> nrun p s (a ++ b) = Some s2.
+Proof.
+  induction a as [|l a IH]; simpl; intros b s s1 s2 A B.
+  - inversion A; subst; exact B.
+  - destruct (nstep p s l); [eauto|discriminate].
+Qed.
+
+(* a replay accepted with macro steps is a run of the LTS *)
+Lemma nrun_macro_sound : forall p ms s s', nrun_macro p s ms = Some s' -> nrun p s (nexpand ms) = Some s'.
+Proof.
+  induction ms as [|m ms IH]; intros s s' H.
+  - exact H.
+  - destruct m as [d k|l]; cbn [nrun_macro] in H.
+    + destruct (nsend_many p s d k) as [s1|] eqn:E; [|discriminate].
+      change (nexpand (NMany d k :: ms)) with (repeat (NSend d) k ++ nexpand ms).
+      eapply nrun_app; [apply nsend_many_run; exact E|apply IH; exact H].
+    + destruct (nstep p s l) as [s1|] eqn:E; [|discriminate].
+      change (nexpand (NOne l :: ms)) with (l :: nexpand ms). cbn [nrun]. rewrite E. apply IH; exact H.
+Qed.
+
+Lemma c29j_tie_sound : forall c, c29j_tie c = true ->
+  nvalid (c29j_params c) /\ exists s, nrun (c29j_params c) ninit (nexpand (kj_trace c)) = Some s /\ nreach (c29j_params c) s /\ nfinalb s = true.
+Proof.
+  intros c H. unfold c29j_tie in H. apply andb_true_iff in H. destruct H as [V H].
+  split; [apply Nat.leb_le; exact V|].
+  destruct (nrun_macro (c29j_params c) ninit (kj_trace c)) as [s|] eqn:E; [|discriminate].
+  repeat (apply andb_true_iff in H; destruct H as [H ?]).
+  apply nrun_macro_sound in E. exists s. repeat split; auto. eapply nrun_reach; [apply nreach_init|exact E].
+Qed.
+
+Definition is_main_label (l : nlabel) : bool := match l with NRecv _ | NClosed _ => true | _ => false end.
+
+(* Early return: the step in which the main loop receives a source's error message, or a message whose
+   processing fails (LIMIT reached downstream, produce/key error), is a step of the main loop alone and ends in
+   a final state: Run has returned.  No step of a producer is needed, and the producers are left as they were
+   (one message shorter) - in particular still blocked if they were. *)
+Lemma join_early_return_alone : forall p s d s',
+  n_m s <> MRet -> nstep p s (NRecv d) = Some s' ->
+  (hd_error (p_ch (nget s d)) = Some MErr \/ np_fail p = Some (n_acts s)) ->
+  nfinalb s' = true /\
+  p_sent (nget s' SL) = p_sent (nget s SL) /\ p_sent (nget s' SR) = p_sent (nget s SR) /\
+  p_pc (nget s' SL) = p_pc (nget s SL) /\ p_pc (nget s' SR) = p_pc (nget s SR) /\
+  p_ch (nget s' (other d)) = p_ch (nget s (other d)) /\ p_ch (nget s d) = (match hd_error (p_ch (nget s d)) with Some m => m | None => MData end) :: p_ch (nget s' d).
+Proof.
+  intros p [[sl pl cl kl] [sr pr cr kr] m a] d s' NM H E. simpl in *.
+  destruct d; nstep_cases H; simpl in *; unfold act in *; simpl in *;
+    destruct E as [E|E]; try discriminate; try (rewrite E in *; simpl in *; rewrite ?Nat.eqb_refl in *);
+    repeat (match goal with |- context [match ?x with _ => _ end] => destruct x eqn:? end; simpl in *);
+    bool_hyps; try congruence; try lia; repeat split; auto.
+Qed.
+
+(* once Run has returned it stays returned, whatever the producers do or fail to do *)
+Lemma nfinal_stable : forall p s l s', nstep p s l = Some s' -> nfinalb s = true -> nfinalb s' = true /\ is_main_label l = false.
+Proof.
+  intros p [[sl pl cl kl] [sr pr cr kr] m a] l s' H F. unfold nfinalb in F. simpl in F. destruct m; try discriminate.
+  destruct l as [[]|[]|[]|[]|[]]; nstep_cases H; simpl; auto.
+Qed.
